@@ -10,6 +10,11 @@ CHECKS = {
          "per path z3 decides termination guard, winner count, per-round partition, status monotonicity and the boundary-tie ValueError policy (both directions for single-round rules). "
          "Bounded: family sizes, Nmax, W and option slice are printed in the evidence.", "§4 C01"),
 }
+CHECKS.update({
+ "C02": ("Real STV/IRV/SequentialRCV constructors run on proxies; every recorded round (profile in/out, state) is compared by z3 with a spec step written from the statement: quota formula, who is elected or eliminated (incl. tie rules), transfer weights per ranking, reported tallies and order. Canaries (wrong quota, > for >=, wrong transfer factor, eliminate highest) must be refuted on every run.", "§4 C02"),
+ "C03": ("Unit level: fractional_transfer with symbolic tally >= threshold >= 1 and weights, random_transfer with integer weights and all sample outcomes; per continuing ranking the output weight equals the definition (z3 validity), population and size of the random draw are the transferable unit ballots and tally-threshold. Across rounds: conservation identity on every round of real STV runs.", "§4 C03"),
+ "C07": ("Droop proportionality for solid coalitions asked of z3 as an axiom on every path of real STV/IRV runs (fractional and random transfer, simultaneous and one-by-one, all random outcomes).", "§4 C07"),
+})
 NOT_APPLICABLE = {}
 def main():
     props = [json.loads(l)["id"] for l in open(os.path.join(ROOT, "properties.jsonl"))]
